@@ -22,6 +22,10 @@
 (*   R3  a failed parse leaves the target forest as it was.                *)
 (*   R4  no allocation stays behind a failed parse; after a successful one *)
 (*       everything is released when the target is cleared.                *)
+(*   R6  when the call returns, every node of the target names a live parent: the node it   *)
+(*       is listed under (links = number of nodes that do not, over the whole target).      *)
+(*   R7  the value range handed to the handler lies inside the characters stored behind     *)
+(*       the path (vl <= post).                                                              *)
 (*   R5  if the parse succeeds its events were well nested: sect(p) pushes *)
 (*       p = open + <<name>>, end(p) closes p = open # <<>>, opt(p) has    *)
 (*       p = open + <<name>>, data(p) has p = open.                        *)
@@ -48,17 +52,21 @@ IsPush(p, open) == Len(p) = Len(open) + 1 /\ Front(p) = open
 Ok(s, e) ==
   CASE e.t = "start"  -> s.phase = "idle"
     [] e.t = "getc"   -> s.phase = "run" /\ s.reads + e.k <= s.len + MaxPolls                 \* R1
-    [] e.t \in {"sect", "end", "opt", "data"} -> s.phase = "run"                             \* R2
+    [] e.t \in {"sect", "end"} -> s.phase = "run"                                           \* R2
+    [] e.t \in {"opt", "data"} -> s.phase = "run" /\ e.vl <= e.post                         \* R2, R7
     [] e.t = "return" ->
          /\ s.phase = "run"
          /\ e.ok => s.nestok                                                                 \* R5
          /\ ~e.ok => (e.after = s.before /\ e.net = 0)                                       \* R3, R4
          /\ e.ok => e.netclear = 0                                                           \* R4
+         /\ e.links = 0                                                                     \* R6
     [] OTHER -> FALSE
 
 (* which rule refuses e (diagnostics of a rejected trace) *)
 Why(s, e) ==
   CASE e.t = "getc" /\ s.phase = "run" -> "R1:reads"
+    [] e.t \in {"opt", "data"} /\ s.phase = "run" -> "R7:data-range"
+    [] e.t = "return" /\ s.phase = "run" /\ e.links # 0 -> "R6:dead-parent"
     [] e.t = "return" /\ s.phase = "run" /\ e.ok /\ ~s.nestok -> "R5:nesting"
     [] e.t = "return" /\ s.phase = "run" /\ ~e.ok /\ e.after # s.before -> "R3:target-changed"
     [] e.t = "return" /\ s.phase = "run" /\ ~e.ok -> "R4:leak-on-failure"
@@ -99,18 +107,18 @@ Start(n, f)   == Do([t |-> "start", len |-> n, before |-> f])
 Getc(k)       == Do([t |-> "getc", k |-> k])
 Section(name) == Len(mon.open) < MaxDepth /\ Do([t |-> "sect", p |-> Append(mon.open, name)])
 SectEnd       == mon.open # <<>> /\ Do([t |-> "end", p |-> mon.open])
-Option(name)  == Do([t |-> "opt", p |-> Append(mon.open, name)])
-Data          == Do([t |-> "data", p |-> mon.open])
-Return(ok, after, net, netclear) ==
-  Do([t |-> "return", ok |-> ok, after |-> after, net |-> net, netclear |-> netclear])
+Option(name, vl, post) == Do([t |-> "opt", p |-> Append(mon.open, name), vl |-> vl, post |-> post])
+Data(vl, post) == Do([t |-> "data", p |-> mon.open, vl |-> vl, post |-> post])
+Return(ok, after, net, netclear, links) ==
+  Do([t |-> "return", ok |-> ok, after |-> after, net |-> net, netclear |-> netclear, links |-> links])
 
 Init == mon = Idle /\ obs = [a |-> "none", arg |-> [t |-> "none"], exp |-> [phase |-> "idle"]]
 Next ==
   \/ \E n \in 0..MaxLen, f \in Forests : Start(n, f)
   \/ \E k \in 1..2 : Getc(k)
-  \/ \E name \in Names : Section(name) \/ Option(name)
-  \/ SectEnd \/ Data
-  \/ \E ok \in BOOLEAN, after \in Forests, net \in 0..1, nc \in 0..1 : Return(ok, after, net, nc)
+  \/ \E name \in Names : Section(name) \/ \E vl \in 0..2, post \in 0..2 : Option(name, vl, post)
+  \/ SectEnd \/ \E vl \in 0..2, post \in 0..2 : Data(vl, post)
+  \/ \E ok \in BOOLEAN, after \in Forests, net \in 0..1, nc \in 0..1, lk \in 0..1 : Return(ok, after, net, nc, lk)
 Spec == Init /\ [][Next]_vars
 
 TypeOK == mon.phase \in {"idle", "run", "done"} /\ mon.reads \in Nat /\ mon.depth \in Nat
@@ -123,4 +131,8 @@ Transactional ==
   [][(mon.phase = "run" /\ mon'.phase = "done" /\ ~obs'.arg.ok) => (obs'.arg.after = mon.before /\ obs'.arg.net = 0)]_vars
 Balanced ==
   [][(mon.phase = "run" /\ mon'.phase = "done" /\ obs'.arg.ok) => obs'.arg.netclear = 0]_vars
+Linked ==
+  [][(mon.phase = "run" /\ mon'.phase = "done") => obs'.arg.links = 0]_vars
+InRange ==
+  [][(obs'.a \in {"opt", "data"}) => obs'.arg.vl <= obs'.arg.post]_vars
 =============================================================================
